@@ -6,6 +6,7 @@
 #include <ctype.h>
 #include <errno.h>
 #include "meta.h"
+#include "message.h"
 #include "convert.h"
 #include "types.h"
 #include "array.h"
@@ -340,6 +341,25 @@ int main(void)
 			add_slot(mt, 1, -1);
 			no_probe = 0;
 		}
+		else if (!strcmp(op, "msg") && (drv_nw == 3 || drv_nw == 4)) {
+			/* it msg <hex of the first part> [<hex of a second part>] : mpt_message_iterator over a NUL-delimited
+			 * message (argument separator 0), the message may be split in two parts */
+			MPT_STRUCT(message) m = MPT_MESSAGE_INIT;
+			struct iovec cont;
+			uint8_t *d1 = 0, *d2 = 0;
+			size_t n1 = 0, n2 = 0;
+			int nul1 = 0, nul2 = 0;
+			MPT_INTERFACE(metatype) *mt;
+			if (drv_parse_data(drv_w[2], &d1, &n1, &nul1) || nul1
+			    || (drv_nw == 4 && (drv_parse_data(drv_w[3], &d2, &n2, &nul2) || nul2))) { puts("bad-op"); free(d1); free(d2); continue; }
+			m.base = d1; m.used = n1;
+			if (drv_nw == 4) { cont.iov_base = d2; cont.iov_len = n2; m.cont = &cont; m.clen = 1; }
+			mt = mpt_message_iterator(&m, 0);
+			free(d1); free(d2);
+			no_probe = 1;
+			add_slot(mt, 1, -1);
+			no_probe = 0;
+		}
 		else if (!strcmp(op, "kwalk") && drv_nw == 3) {
 			/* the documented loop reading keys ('k') from a text iterator */
 			size_t cap, n = 0;
@@ -464,7 +484,9 @@ int main(void)
 				if (*t == 'd') { if (b == sentinel) fputs("none", stdout); else put_num(dv, 1, 0); }
 				else if (*t == 'u') { if (uv == 0xdeadbeefU) fputs("none", stdout); else printf("%u", uv); }
 				else fputc('-', stdout);
-				printf(" | C - | I ret=%s\n", (*t == 's' || r) ? "type" : "0");
+				/* a delivered element is reported with the type of the consumed value (positive), never 0 */
+				if (*t == 's') puts(" | C - | I ret=type");
+				else printf(" got=%s | C - | I -\n", r ? "type" : "0");
 			}
 		}
 		else if (!strcmp(op, "meta") && drv_nw == 2) {
@@ -522,6 +544,17 @@ int main(void)
 			ret = mpt_range_set(&r, &v);
 			if (ret < 0) printf("R err | C - | I ret=%s\n", drv_errname(ret));
 			else { fputs("R ok min=", stdout); put_num(r.min, 1, 0); fputs(" max=", stdout); put_num(r.max, 1, 0); printf(" | C - | I ret=%d\n", ret); }
+		}
+		else if (!strcmp(op, "uvalue") && drv_nw == 2) {
+			/* the current element read as uint32 (a second, narrower reading of an element; no advance) */
+			const MPT_STRUCT(value) *val;
+			uint32_t uv = 0xdeadbeefU;
+			int r;
+			if (cur < 0) { puts("bad-op"); continue; }
+			if (!(val = slot_it[cur]->_vptr->value(slot_it[cur]))) { puts("R null | C - | I -"); continue; }
+			r = mpt_value_convert(val, 'u', &uv);
+			if (r < 0) printf("R noconv | C - | I ret=%s\n", drv_errname(r));
+			else printf("R uval=%u | C - | I -\n", uv);
 		}
 		else if (!strcmp(op, "rest") && drv_nw == 2) {
 			/* the current element of a text argument read as a string: the remaining text */
